@@ -526,8 +526,10 @@ class Monitors:
                 ctx.oracle_error('C11 irregularity_cause')
                 return
             case['irregular_subframe'] = detail
-            if not g.monotone and isinstance(ev.exc, NotImplementedError) and cause == 'geometry':
-                ctx.count('backward_propagation:irregular_subframe_allowed')
+            if not g.monotone and isinstance(ev.exc, NotImplementedError):
+                # after a backward propagate_to the extreme time and wavelength need not coincide
+                # (the statement about regularity is only meaningful for neutrons flying forward)
+                ctx.count('backward_propagation:irregular_subframe_not_judged')
                 return
             ctx.event('subbounds')
             ctx.violation('subbounds_raised',
